@@ -16,25 +16,76 @@ identity, which is what the theorems use).
 import NipyVerif.Model.Common
 namespace NipyVerif.C01
 
-/-! ### dtypes (`safe_dtype`, `np.can_cast`) on the chain int64 < float64 < object -/
+/-! ### dtypes: the numpy scalar types nipy accepts (`SCTYPES` int, uint, float, complex, object),
+`bool` (accepted by `safe_dtype`, refused by `CoordinateSystem`) and `txt` standing for every
+non-numeric dtype; `np.can_cast(·, ·, 'safe')` and numpy's promotion (`safe_dtype`) -/
 
-inductive DType | i8 | f8 | obj
+inductive DType | b1 | i1 | i2 | i4 | i8 | u1 | u2 | u4 | u8 | f2 | f4 | f8 | c8 | c16 | obj | txt
 deriving DecidableEq, Repr
 
-def DType.rank : DType → Nat
-  | .i8 => 0 | .f8 => 1 | .obj => 2
+inductive Kind | b | i | u | f | c | O | S
+deriving DecidableEq, Repr
 
-/-- `safe_dtype(a, b)` (numpy promotion) -/
-def DType.join (a b : DType) : DType := if a.rank ≤ b.rank then b else a
+def DType.kind : DType → Kind
+  | .b1 => .b
+  | .i1 | .i2 | .i4 | .i8 => .i
+  | .u1 | .u2 | .u4 | .u8 => .u
+  | .f2 | .f4 | .f8 => .f
+  | .c8 | .c16 => .c
+  | .obj => .O
+  | .txt => .S
+
+/-- item size in bytes -/
+def DType.size : DType → Nat
+  | .b1 | .i1 | .u1 => 1
+  | .i2 | .u2 | .f2 => 2
+  | .i4 | .u4 | .f4 => 4
+  | .i8 | .u8 | .f8 | .c8 => 8
+  | .c16 => 16
+  | .obj | .txt => 0
+
+def DType.isInt (d : DType) : Bool := d.kind == .i || d.kind == .u
 
 /-- `np.can_cast(src, dst)` (safe casting) -/
-def DType.canCast (s d : DType) : Bool := s.rank ≤ d.rank
+def DType.canCast (s d : DType) : Bool :=
+  match s.kind, d.kind with
+  | .S, .S => true
+  | .S, _ => false
+  | _, .S => false
+  | _, .O => true
+  | .O, _ => false
+  | .b, _ => true
+  | _, .b => false
+  | .i, .i => s.size ≤ d.size
+  | .i, .u => false
+  | .i, .f => min (2 * s.size) 8 ≤ d.size
+  | .i, .c => 2 * min (2 * s.size) 8 ≤ d.size
+  | .u, .u => s.size ≤ d.size
+  | .u, .i => s.size < d.size
+  | .u, .f => min (2 * s.size) 8 ≤ d.size
+  | .u, .c => 2 * min (2 * s.size) 8 ≤ d.size
+  | .f, .f => s.size ≤ d.size
+  | .f, .c => 2 * s.size ≤ d.size
+  | .f, _ => false
+  | .c, .c => s.size ≤ d.size
+  | .c, _ => false
+
+/-- numpy's promotion order: the promoted type of two types is the first of these both cast to -/
+def DType.cands : List DType :=
+  [.b1, .i1, .u1, .i2, .u2, .i4, .u4, .i8, .u8, .f2, .f4, .f8, .c8, .c16, .obj, .txt]
+
+/-- `safe_dtype(a, b)` (numpy promotion of two numeric / object dtypes) -/
+def DType.join (a b : DType) : DType :=
+  (DType.cands.find? fun c => a.canCast c && b.canCast c).getD .obj
 
 def DType.str : DType → String
-  | .i8 => "i8" | .f8 => "f8" | .obj => "O"
+  | .b1 => "b1" | .i1 => "i1" | .i2 => "i2" | .i4 => "i4" | .i8 => "i8"
+  | .u1 => "u1" | .u2 => "u2" | .u4 => "u4" | .u8 => "u8"
+  | .f2 => "f2" | .f4 => "f4" | .f8 => "f8" | .c8 => "c8" | .c16 => "c16" | .obj => "O" | .txt => "S"
 
 inductive Err
-  | valueError | indexError | axisError | keyError | coordSys | nonInvertible | nonSquare
+  | valueError | indexError | axisError | keyError | typeError | coordSys | nonInvertible | nonSquare
+  | csMaker | cmMaker
 deriving DecidableEq, Repr
 
 def Err.str : Err → String
@@ -42,9 +93,12 @@ def Err.str : Err → String
   | .indexError => "error:indexError"
   | .axisError => "error:axisError"
   | .keyError => "error:keyError"
+  | .typeError => "error:typeError"
   | .coordSys => "error:CoordinateSystemError"
   | .nonInvertible => "error:NonInvertibleMatrixError"
   | .nonSquare => "error:NonSquareMatrixError"
+  | .csMaker => "error:CoordSysMakerError"
+  | .cmMaker => "error:CoordMapMakerError"
 
 /-! ### coordinate systems -/
 
@@ -54,9 +108,14 @@ structure CoordSys where
   dtype : DType
 deriving DecidableEq, Repr
 
-/-- `CoordinateSystem.__init__`: coordinate names must be distinct. -/
+/-- the coordinate dtypes `CoordinateSystem` accepts: int, uint, float, complex, object -/
+def DType.validCS (d : DType) : Bool := d != .b1 && d != .txt
+
+/-- `CoordinateSystem.__init__`: coordinate names must be distinct, the dtype one of the accepted ones. -/
 def mkCS (names : List String) (name : String) (dt : DType) : Except Err CoordSys :=
-  if names.Nodup then .ok ⟨names, name, dt⟩ else .error .valueError
+  if ¬ names.Nodup then .error .valueError
+  else if dt.validCS = false then .error .valueError
+  else .ok ⟨names, name, dt⟩
 
 /-! ### matrices -/
 
@@ -105,7 +164,8 @@ def Aff.dtype (A : Aff) : DType := A.dom.dtype
 /-- `AffineTransform.__init__(function_domain, function_range, affine)`;
     `mdt` is the dtype of the matrix handed in. -/
 def mkAff (dom rng : CoordSys) (m : Mat) (mdt : DType) : Except Err Aff :=
-  let dt := mdt.join (dom.dtype.join rng.dtype)
+  -- `safe_dtype(affine.dtype, domain dtype, range dtype)`: numpy promotes from left to right
+  let dt := (mdt.join dom.dtype).join rng.dtype
   if ¬ dom.names.Nodup ∨ ¬ rng.names.Nodup then .error .valueError
   else if shapeOK m (rng.names.length + 1) (dom.names.length + 1) = false then .error .valueError
   else if bottomOK m dom.names.length rng.names.length = false then .error .valueError
@@ -163,10 +223,10 @@ def prodOff : List Aff → Nat → Rat
 
 def sumNat (l : List Nat) : Nat := l.foldr (· + ·) 0
 
+/-- `safe_dtype(*dtypes)`: numpy promotes from left to right; no dtype at all gives float64 -/
 def joinAll : List DType → DType
   | [] => .f8
-  | [d] => d
-  | d :: ds => d.join (joinAll ds)
+  | d :: ds => ds.foldl DType.join d
 
 def prodMat (l : List Aff) : Mat :=
   let N := sumNat (l.map Aff.nout)
@@ -228,16 +288,28 @@ def certInv (A : Aff) : Option Mat :=
       if Mat.mul n n n c A.aff = idMat n ∧ Mat.mul n n n A.aff c = idMat n
           ∧ bottomExactB c A.nout A.nin = true then some c else none
 
+/-- dtype of `numpy.linalg.inv(a)`; `none`: LAPACK has no routine for the type (`TypeError`), the
+    code then goes through sympy -/
+def lapackDType : DType → Option DType
+  | .f2 | .obj | .txt => none
+  | .f4 => some .f4
+  | .c8 => some .c8
+  | .c16 => some .c16
+  | _ => some .f8
+
+/-- dtype of the inverse matrix: LAPACK's, or (sympy path) the map's own dtype -/
+def invDType (d : DType) : DType := (lapackDType d).getD d
+
 /-- `inverse()` with `preserve_dtype=False`.  `none`: the implementation
     returns `None` (`LinAlgError`: not square, or singular).  With object dtype a
     singular square matrix reaches the sympy path, which raises instead. -/
 def inverse (A : Aff) : Except Err (Option Aff) :=
   match certInv A with
   | some c =>
-      match mkAff A.rng A.dom c (if A.dtype = .obj then .obj else .f8) with
+      match mkAff A.rng A.dom c (invDType A.dtype) with
       | .error e => .error e
       | .ok B => .ok (some B)
-  | none => if A.nin = A.nout ∧ A.dtype = .obj then .error .nonInvertible else .ok none
+  | none => if A.nin = A.nout ∧ (lapackDType A.dtype).isNone then .error .nonInvertible else .ok none
 
 /-! ### reordering (`reordered_domain`, `reordered_range`) -/
 
@@ -366,7 +438,7 @@ def truncRat (q : Rat) : Rat := if 0 ≤ q then (q.floor : Rat) else (q.ceil : R
 /-- assignment `shift_matrix[:-1, -1] = v`: numpy broadcasting of a length-1
     vector, refusal of any other length mismatch, truncation into an int matrix -/
 def bcastInto (n : Nat) (dt : DType) (d : List Rat) : Except Err (List Rat) :=
-  let cast := fun (q : Rat) => if dt = .i8 then truncRat q else q
+  let cast := fun (q : Rat) => if dt.isInt then truncRat q else q
   if d.length = n then .ok (d.map cast)
   else if d.length = 1 then .ok (List.replicate n (cast (d.getD 0 0)))
   else .error .valueError
@@ -400,9 +472,11 @@ def shiftedRangeOrigin (A : Aff) (diff : List Rat) (newName : String) : Except E
 /-! ### append / drop an axis -/
 
 /-- `append_io_dim(cm, in_name, out_name, start, step)`; `from_params` makes
-    unnamed float64 coordinate systems for the extra map. -/
-def appendIoDim (A : Aff) (inName outName : String) (start step : Rat) : Except Err Aff :=
-  match mkAff ⟨[inName], "", .f8⟩ ⟨[outName], "", .f8⟩ [[step, start], [0, 1]] .f8 with
+    unnamed float64 coordinate systems for the extra map; `mdt` is the dtype of
+    `np.array([[step, start], [0, 1]])`. -/
+def appendIoDim (A : Aff) (inName outName : String) (start step : Rat) (mdt : DType := .f8) :
+    Except Err Aff :=
+  match mkAff ⟨[inName], "", .f8⟩ ⟨[outName], "", .f8⟩ [[step, start], [0, 1]] mdt with
   | .error e => .error e
   | .ok E => product [A, E] "product" "product"
 
@@ -468,6 +542,8 @@ def dropIoDim (A : Aff) (ax : Key) (fix0flag : Bool) (ornts : List (Option Nat))
       | some ii, some oo => !(orthAxes A.aff A.nout A.nin ii oo fix0flag)
       | _, _ => false
     if bad then .error .axisError
+    -- `out_dims.pop(out_dim)` / `rows.pop(out_dim)`: an output index beyond the outputs is an IndexError
+    else if (match o with | some oo => decide (A.nout ≤ oo) | none => false) = true then .error .indexError
     else
       let nin' := match i with | some _ => A.nin - 1 | none => A.nin
       let nout' := match o with | some _ => A.nout - 1 | none => A.nout
@@ -526,12 +602,14 @@ def ccomposeList (l : List CMap) : Except Err CMap :=
     matrix must be integral -/
 def isIntMat (m : Mat) : Bool := m.all fun row => row.all fun q => q.den == 1
 
+def isNonnegMat (m : Mat) : Bool := m.all fun row => row.all fun q => decide (0 ≤ q)
+
 def inversePreserve (A : Aff) : Option Aff :=
   match inverse A with
   | .ok (some B) =>
-      if A.dtype = .i8 then
-        (if isIntMat B.aff then
-          match mkAff A.rng A.dom B.aff .i8 with | .ok C => some C | .error _ => none
+      if A.dtype.isInt then
+        (if isIntMat B.aff && (A.dtype.kind != .u || isNonnegMat B.aff) then
+          match mkAff A.rng A.dom B.aff A.dtype with | .ok C => some C | .error _ => none
          else none)
       else some B
   | _ => none
@@ -601,7 +679,10 @@ def pStr : P String := do
 def pDType : P DType := do
   let t ← pTok
   match t with
-  | "i8" => pure .i8 | "f8" => pure .f8 | "O" => pure .obj | _ => failure
+  | "b1" => pure .b1 | "i1" => pure .i1 | "i2" => pure .i2 | "i4" => pure .i4 | "i8" => pure .i8
+  | "u1" => pure .u1 | "u2" => pure .u2 | "u4" => pure .u4 | "u8" => pure .u8
+  | "f2" => pure .f2 | "f4" => pure .f4 | "f8" => pure .f8 | "c8" => pure .c8 | "c16" => pure .c16
+  | "O" => pure .obj | "S" => pure .txt | _ => failure
 
 /-- raw coordinate system `name dtype n names…` (not validated: `mkCS` is part of the model) -/
 def pCS : P CoordSys := do
@@ -649,23 +730,26 @@ def pOrnt : P (Option Nat) := do
   if t = "x" then pure none else match t.toNat? with | some n => pure (some n) | none => failure
 
 inductive Op
-  | composeR (m : RawMap) | composeL (m : RawMap) | compose3 (l r : RawMap)
-  | prodR (m : RawMap) (i o : String) | prodL (m : RawMap) (i o : String)
+  | composeN (ls rs : List RawMap)
+  | prodN (ls rs : List RawMap) (i o : String)
   | reordD (o : Order) | reordR (o : Order)
   | renD (kv : List (Key × String)) | renR (kv : List (Key × String))
   | inv
   | shiftD (d : List Rat) (nm : String) | shiftR (d : List Rat) (nm : String)
-  | append (i o : String) (start step : Rat)
+  | append (i o : String) (start step : Rat) (mdt : DType)
   | drop (ax : Key) (fix0 : Bool) (ornts : List (Option Nat))
 
 def pOp : P Op := do
   let t ← pTok
   match t with
-  | "compose_r" => do let m ← pRaw; pure (.composeR m)
-  | "compose_l" => do let m ← pRaw; pure (.composeL m)
-  | "compose3" => do let l ← pRaw; let r ← pRaw; pure (.compose3 l r)
-  | "prod_r" => do let m ← pRaw; let i ← pStr; let o ← pStr; pure (.prodR m i o)
-  | "prod_l" => do let m ← pRaw; let i ← pStr; let o ← pStr; pure (.prodL m i o)
+  | "compose_r" => do let m ← pRaw; pure (.composeN [] [m])
+  | "compose_l" => do let m ← pRaw; pure (.composeN [m] [])
+  | "compose3" => do let l ← pRaw; let r ← pRaw; pure (.composeN [l] [r])
+  | "compose_n" => do let ls ← pList pRaw; let rs ← pList pRaw; pure (.composeN ls rs)
+  | "prod_r" => do let m ← pRaw; let i ← pStr; let o ← pStr; pure (.prodN [] [m] i o)
+  | "prod_l" => do let m ← pRaw; let i ← pStr; let o ← pStr; pure (.prodN [m] [] i o)
+  | "prod_n" => do
+      let ls ← pList pRaw; let rs ← pList pRaw; let i ← pStr; let o ← pStr; pure (.prodN ls rs i o)
   | "reord_d" => do let o ← pOrder; pure (.reordD o)
   | "reord_r" => do let o ← pOrder; pure (.reordR o)
   | "ren_d" => do let kv ← pList pKV; pure (.renD kv)
@@ -673,24 +757,38 @@ def pOp : P Op := do
   | "inv" => pure .inv
   | "shift_d" => do let d ← pList pRat; let n ← pStr; pure (.shiftD d n)
   | "shift_r" => do let d ← pList pRat; let n ← pStr; pure (.shiftR d n)
-  | "append" => do let i ← pStr; let o ← pStr; let s ← pRat; let st ← pRat; pure (.append i o s st)
+  | "append" => do
+      let i ← pStr; let o ← pStr; let s ← pRat; let st ← pRat; let dt ← pDType; pure (.append i o s st dt)
   | "drop" => do let k ← pKey; let f ← pBool; let o ← pList pOrnt; pure (.drop k f o)
   | _ => failure
+
+/-- the partner maps of an n-ary operation are constructed left to right -/
+def buildAll : List RawMap → Except Err (List Aff)
+  | [] => .ok []
+  | m :: rest =>
+      match m.build with
+      | .error e => .error e
+      | .ok A => match buildAll rest with
+        | .error e => .error e
+        | .ok l => .ok (A :: l)
 
 def liftSome {α} (e : Except Err α) : Except Err (Option α) :=
   match e with | .ok a => .ok (some a) | .error e => .error e
 
 /-- one step of an affine program; `none` = `inverse()` returned `None` -/
 def stepAff (A : Aff) : Op → Except Err (Option Aff)
-  | .composeR m => match m.build with | .error e => .error e | .ok B => liftSome (composeList [A, B])
-  | .composeL m => match m.build with | .error e => .error e | .ok B => liftSome (composeList [B, A])
-  | .compose3 l r =>
-      match l.build, r.build with
-      | .ok L, .ok R => liftSome (composeList [L, A, R])
-      | .error e, _ => .error e
-      | _, .error e => .error e
-  | .prodR m i o => match m.build with | .error e => .error e | .ok B => liftSome (product [A, B] i o)
-  | .prodL m i o => match m.build with | .error e => .error e | .ok B => liftSome (product [B, A] i o)
+  | .composeN ls rs =>
+      match buildAll ls with
+      | .error e => .error e
+      | .ok L => match buildAll rs with
+        | .error e => .error e
+        | .ok R => liftSome (composeList (L ++ A :: R))
+  | .prodN ls rs i o =>
+      match buildAll ls with
+      | .error e => .error e
+      | .ok L => match buildAll rs with
+        | .error e => .error e
+        | .ok R => liftSome (product (L ++ A :: R) i o)
   | .reordD o => liftSome (reorderedDomain A o)
   | .reordR o => liftSome (reorderedRange A o)
   | .renD kv => liftSome (renamedDomain A kv)
@@ -698,7 +796,7 @@ def stepAff (A : Aff) : Op → Except Err (Option Aff)
   | .inv => inverse A
   | .shiftD d n => liftSome (shiftedDomainOrigin A d n)
   | .shiftR d n => liftSome (shiftedRangeOrigin A d n)
-  | .append i o s st => liftSome (appendIoDim A i o s st)
+  | .append i o s st dt => liftSome (appendIoDim A i o s st dt)
   | .drop k f o => liftSome (dropIoDim A k f o)
 
 /-- run a chain; result: final map, or `(step index, "none" | error)` -/
@@ -709,6 +807,34 @@ def runOps (A : Aff) : List Op → Nat → Except (Nat × String) Aff
       | .error e => .error (k, e.str)
       | .ok none => .error (k, "none")
       | .ok (some B) => runOps B rest (k + 1)
+
+/-! ### side conditions of the program theorem (`prog_sound`), decidable so that the driver reports them -/
+
+def Aff.exactB (A : Aff) : Bool := bottomExactB A.aff A.nin A.nout
+
+def RawMap.exactB (m : RawMap) : Bool := bottomExactB m.m m.dom.names.length m.rng.names.length
+
+/-- the entries of the dropped column that `drop_io_dim` discards (every row but the dropped one)
+    are exactly zero -/
+def dropColZeroB (A : Aff) (i o : Option Nat) : Bool :=
+  match i with
+  | none => true
+  | some ii => (List.range A.nout).all fun r => o == some r || A.aff.get r ii == 0
+
+def Op.exactB (A : Aff) : Op → Bool
+  | .composeN ls rs => (ls ++ rs).all RawMap.exactB
+  | .drop ax _ ornts =>
+      match ioAxisIndices A ax ornts with
+      | .ok (i, o) => dropColZeroB A i o
+      | .error _ => true
+  | _ => true
+
+def progExactB : Aff → List Op → Bool
+  | _, [] => true
+  | A, op :: rest =>
+      op.exactB A && match stepAff A op with
+        | .ok (some B) => progExactB B rest
+        | _ => true
 
 def fmtCS (c : CoordSys) : String :=
   s!"{encStr c.name} {c.dtype.str} {c.names.length}" ++ String.join (c.names.map fun n => " " ++ encStr n)
@@ -760,15 +886,18 @@ def pGKind : P GKind := do
   | _ => failure
 
 def stepC (M : CMap) : Op → Except Err (Option CMap)
-  | .composeR m => match m.build with | .error e => .error e | .ok B => liftSome (ccomposeList [M, toCMap B])
-  | .composeL m => match m.build with | .error e => .error e | .ok B => liftSome (ccomposeList [toCMap B, M])
-  | .compose3 l r =>
-      match l.build, r.build with
-      | .ok L, .ok R => liftSome (ccomposeList [toCMap L, M, toCMap R])
-      | .error e, _ => .error e
-      | _, .error e => .error e
-  | .prodR m i o => match m.build with | .error e => .error e | .ok B => liftSome (cproduct [M, toCMap B] i o)
-  | .prodL m i o => match m.build with | .error e => .error e | .ok B => liftSome (cproduct [toCMap B, M] i o)
+  | .composeN ls rs =>
+      match buildAll ls with
+      | .error e => .error e
+      | .ok L => match buildAll rs with
+        | .error e => .error e
+        | .ok R => liftSome (ccomposeList (L.map toCMap ++ M :: R.map toCMap))
+  | .prodN ls rs i o =>
+      match buildAll ls with
+      | .error e => .error e
+      | .ok L => match buildAll rs with
+        | .error e => .error e
+        | .ok R => liftSome (cproduct (L.map toCMap ++ M :: R.map toCMap) i o)
   | .reordD o => liftSome (creorderedDomain M o)
   | .reordR o => liftSome (creorderedRange M o)
   | .renD kv => liftSome (crenamedDomain M kv)
@@ -794,7 +923,9 @@ def run : Toks → String
         | .ok A =>
           match runOps A ops 0 with
           | .error (k, s) => s!"{s}@{k}"
-          | .ok B => s!"ok | {fmtAff B} | {fmtPts (B.call p.dt p.pts)}"
+          | .ok B =>
+            let hyp := A.exactB && progExactB A ops
+            s!"ok | {fmtAff B} | {fmtPts (B.call p.dt p.pts)} | hyp {if hyp then 1 else 0}"
   | "gprog" :: rest =>
       match runP (do let m ← pRaw; let g ← pGKind; let ops ← pList pOp; let p ← pPts
                      pure (m, g, ops, p)) rest with
